@@ -171,6 +171,25 @@ def gen_scenario(r, cls: str) -> Dict[str, Any]:
                 acts.append(_gen_action(r, cls, sc, pname, close, nxt, bprec, qprec, v))
             if acts:
                 actions[f"{pname}@{t}"] = acts
+    sc["early_lookup"] = r.random() < 0.3
+    if cls == "ample" and fee is None and r.random() < 0.4:
+        # refine the precision of a base symbol half-way through; later amounts use the finer grid
+        pname = r.choice(list(bars))
+        b = pname.split("/")[0]
+        if symbols[b] <= 6 and all(pr[1] != b for pr in pairs):
+            times = sorted({row[0] for row in bars[pname]})
+            tk = times[len(times) // 2]
+            newp = symbols[b] + 2
+            key = f"{pname}@{tk}"
+            actions.setdefault(key, []).insert(0, {"op": "refine_base", "symbol": b, "precision": newp})
+            for k2, acts in actions.items():
+                pn2, t2 = k2.split("@")
+                if int(t2) >= tk:
+                    for a in acts:
+                        if a.get("op") == "order" and a["pair"].split("/")[0] == b and r.random() < 0.7 \
+                                and D(a["amount"]) > 0 and D(a["amount"]) == q(D(a["amount"]), symbols[b]):
+                            a["amount"] = _s(D(a["amount"]) + unit(newp) * r.randint(1, 99))
+                            a["finer"] = True
     sc["actions"] = actions
     # a few actions issued from order-event handlers and scheduled jobs
     sc["on_order_event"] = []
